@@ -143,11 +143,15 @@ ShapeOf(v, off) ==
 \* the Decomposed visitor: accepted iff exactly the three fields are present (in any order), nothing else
 DecKeys == {"scale", "rot", "disp"}
 DecAccepts(keys) == Len(keys) = 3 /\ {keys[i] : i \in 1..Len(keys)} = DecKeys
+MalformedKinds == {"seq", "num", "str", "null", "bool", "bad_scale", "bad_rot", "bad_disp"}
 SerdeRel(op, a, r) ==
   CASE op = "serde_shape" -> r.t = "Tup" /\ Len(r.c) = 2 /\ r.c[1] = ShapeOf(a[1], 0) /\ r.c[2] = Bv(TRUE)
     [] op = "serde_special" -> r = V("Tup", <<Bv(TRUE)>>)
     [] op = "serde_dec_keys" -> LET keys == [i \in 1..(Len(a) - 1) |-> Sc(a, i + 1)] IN
                                 r.t = "Tup" /\ Len(r.c) = 2 /\ r.c[1] = Bv(DecAccepts(keys)) /\ (DecAccepts(keys) => r.c[2] = Bv(TRUE))
+    \* anything that is not an object (a sequence, a number, a string, null, a boolean), or an object one of whose
+    \* three fields holds a value of the wrong type, is rejected
+    [] op = "serde_dec_malformed" -> Sc(a, 2) \in MalformedKinds /\ r = V("Tup", <<Bv(FALSE)>>)
     [] OTHER -> FALSE
 
 \* ------------------------------------------------------------------------ pipeline C
@@ -200,7 +204,7 @@ ProjRel(op, k, a, r) ==
             ELSE r.c[1].c[1] = TRUE /\ r.c[2].c[1] = TRUE /\ r.c[3].c[1] = RSgn(siny) /\ r.c[4].c[1] <= 130
     [] OTHER -> FALSE
 
-MiscRelOps == ApproxOps \cup PredOps \cup ProjOps \cup {"cast", "serde_shape", "serde_special", "serde_dec_keys"}
+MiscRelOps == ApproxOps \cup PredOps \cup ProjOps \cup {"cast", "serde_shape", "serde_special", "serde_dec_keys", "serde_dec_malformed"}
 MiscRel(op, k, f, a, r) ==
   IF op \in ApproxOps \cup PredOps THEN ApproxRel(op, k, f, a, r)
   ELSE IF op \in ProjOps THEN ProjRel(op, k, a, r)
